@@ -4,13 +4,15 @@
    fails, a number = wait that many ms, "s" = sample the counters. *)
 EXTENDS Integers, Sequences, TLC, Json
 CONSTANT Tier
+\* script 7: passive and active checks together (the peer recovers, and the active check notices, inside the window)
 Window == [kind : {"window"}, F : {300, 600}, M : {1, 2, 3}, script : {1, 2, 3, 4, 5, 6}]
+          \cup [kind : {"window"}, F : {600}, M : {1}, script : {7}]
 Retry  == [kind : {"retry"}, D : {0, 150, 400, 1000}, I : {50, 120, 250}, passive : {FALSE, TRUE}, ups : {1, 2}]
 Limit  == [kind : {"limit"}, max : {1, 2}, ups : {1, 2}, via : {"max_connections", "unhealthy_connection_count"}]
           \cup [kind : {"limit"}, max : {1, 2}, ups : {1}, via : {"partial_dial"}]
 Active == [kind : {"active"}, interval : {60, 150}]
 Grid == Window \cup Retry \cup Limit \cup Active
-QuickGrid == { g \in Grid : (g.kind = "retry" => g.D < 1000 /\ g.I # 250) /\ (g.kind = "window" => g.F = 300) /\ (g.kind = "active" => g.interval = 60) }
+QuickGrid == { g \in Grid : (g.kind = "retry" => g.D < 1000 /\ g.I # 250) /\ (g.kind = "window" => (g.F = 300 \/ g.script = 7)) /\ (g.kind = "active" => g.interval = 60) }
 VARIABLE g
 Init == g \in (IF Tier = "quick" THEN QuickGrid ELSE Grid)
 Next == UNCHANGED g
